@@ -344,14 +344,19 @@ class P2PConnection:
             # resend once after 3 seconds without ACK
             # on timeout the Future is cancelled so create a new
             self._ack_waiter = asyncio.get_event_loop().create_future()
-            await self.xknx.cemi_handler.send_telegram(telegram)
             try:
+                await self.xknx.cemi_handler.send_telegram(telegram)
                 async with asyncio.timeout(MANAGAMENT_ACK_TIMEOUT):
                     ack = await self._ack_waiter
             except TimeoutError:
                 raise ManagementConnectionTimeout(
                     "No ACK received for repeated telegram."
                 ) from None
+            except CommunicationError as exc:
+                # the handlers below do not cover what is raised in this handler
+                raise ManagementConnectionError(
+                    f"Error while resending Telegram: {exc}"
+                ) from exc
         except ConfirmationError as exc:
             raise ManagementConnectionError(
                 f"Error while sending Telegram: {exc}"
